@@ -235,8 +235,9 @@ def dump(dbs, f, **_options):
                             empty = 1
                     if empty == 1:
                         multiplexor_elem.append(muxgroup)
-                        multiplexor_elem.append(value)
-                        multiplexor_elem.append(label_set)
+                # value range and labels of the multiplexer follow its groups - also when it has no group at all
+                multiplexor_elem.append(value)
+                multiplexor_elem.append(label_set)
                 message.append(multiplexor_elem)
 
             # standard-signals:
